@@ -41,6 +41,7 @@ type c02rec struct {
 	Seq  string            `json:"seq"` // base64
 	Qual []int             `json:"qual"`
 	Ann  map[string]c02val `json:"ann"` // keys base64
+	Build string           `json:"build,omitempty"` // construction path of the record (round 3): "" | write | withqual | copy | rewrite
 }
 
 type c02case struct {
@@ -52,6 +53,16 @@ type c02case struct {
 	Recs   []c02rec `json:"recs"`
 	Header string   `json:"header"` // base64 (scan)
 	Val    *c02val  `json:"val"`    // enc
+	// round 3
+	Text      string `json:"text"`       // base64: text nobody formatted (mode read)
+	Shifts    []int  `json:"shifts"`     // mode hist: output/input quality offsets used in turn inside one process
+	SkipEmpty bool   `json:"skip_empty"` // rt: FormatFastx Batch called with skipEmpty
+	Typed     bool   `json:"typed"`      // rt: typed getter views before the write and after the read
+	Append    bool   `json:"append"`     // mode file
+	Compress  bool   `json:"compress"`
+	Prefill   string `json:"prefill"`    // base64: content of the output file before the write
+	BatchSize int    `json:"batch_size"`
+	Workers   int    `json:"workers"`
 }
 
 type c02orec struct {
@@ -63,6 +74,8 @@ type c02orec struct {
 	Stop   int    `json:"stop"`
 	Ann    string `json:"ann"`     // annotations after the header parser, encoding/json (sorted keys)
 	Enc    string `json:"enc"`     // base64: FormatFastSeqJsonHeader of the record after the header parser
+	Typed  []c02typed `json:"typed,omitempty"` // typed getter views of the re-read record (round 3)
+	Enc3   string `json:"enc3,omitempty"`  // base64: formatted header after the caching getters matching the written types ran on the record itself
 }
 
 type c02obs struct {
@@ -88,6 +101,14 @@ type c02obs struct {
 	HEnc2 string `json:"henc2,omitempty"` // base64 formatted header after re-parsing HEnc ("!fatal")
 	GKind string `json:"gkind,omitempty"` // ParseGuessedFastSeqHeader
 	GEnc  string `json:"genc,omitempty"`
+	// round 3
+	Typed0 [][]c02typed `json:"typed0,omitempty"` // typed getter views of the records before the write
+	Single string       `json:"single,omitempty"` // base64: the records formatted one by one (FormatFasta / FormatFastq)
+	WHdr   []string     `json:"whdr,omitempty"`   // base64: WriteFastSeqJsonHeader of every record before the write
+	FHdr   []string     `json:"fhdr,omitempty"`   // base64: FormatFastSeqJsonHeader of every record before the write
+	Hist   []c02hist    `json:"hist,omitempty"`
+	File   string       `json:"file,omitempty"`   // base64: content of the file written by WriteFastxToFile (decompressed)
+	Gz     bool         `json:"gz,omitempty"`     // the file starts with the gzip magic number
 }
 
 // c02header runs one header parser on a fresh record whose definition is h; returns kind and the formatted header.
@@ -172,6 +193,16 @@ func c02value(v c02val) interface{} {
 		m := map[string]string{}
 		for k, x := range v.M {
 			m[string(unb64(k))] = c02value(x).(string)
+		}
+		return m
+	case "mapintstr":
+		m := map[int]string{}
+		for k, x := range v.M {
+			i, err := strconv.Atoi(string(unb64(k)))
+			if err != nil {
+				panic(err)
+			}
+			m[i] = c02value(x).(string)
 		}
 		return m
 	case "ints":
@@ -266,6 +297,12 @@ func c02run(c c02case) (o c02obs) {
 			o.Ann2, o.Rest2 = c02canon(ann2), b64([]byte(rest2))
 		}
 		return
+	case "read":
+		return c02read(c)
+	case "hist":
+		return c02histRun(c)
+	case "file":
+		return c02file(c)
 	case "enc":
 		b, err := obiutils.JsonMarshal(c02value(*c.Val))
 		if err != nil {
@@ -279,21 +316,19 @@ func c02run(c c02case) (o c02obs) {
 	obioptions.SetOutputQualityShift(c.Shift)
 	seqs := obiseq.MakeBioSequenceSlice(len(c.Recs))[:0]
 	for _, r := range c.Recs {
-		s := obiseq.NewBioSequence(string(unb64(r.Id)), unb64(r.Seq), string(unb64(r.Def)))
-		if r.Qual != nil {
-			q := make([]byte, len(r.Qual))
-			for i, x := range r.Qual {
-				q[i] = byte(x)
-			}
-			s.SetQualities(q)
-		}
-		a := s.Annotations()
-		for k, v := range r.Ann {
-			a[string(unb64(k))] = c02value(v)
-		}
-		seqs = append(seqs, s)
+		seqs = append(seqs, c02build(r))
 	}
-	w1 := c02format(c.Fmt, seqs)
+	if c.Typed {
+		for _, s := range seqs {
+			o.Typed0 = append(o.Typed0, c02views(s))
+			o.FHdr = append(o.FHdr, b64([]byte(obiformats.FormatFastSeqJsonHeader(s))))
+			var hb bytes.Buffer
+			obiformats.WriteFastSeqJsonHeader(&hb, s)
+			o.WHdr = append(o.WHdr, b64(hb.Bytes()))
+		}
+		o.Single = b64(c02single(c.Fmt, seqs))
+	}
+	w1 := c02formatSkip(c.Fmt, seqs, c.SkipEmpty)
 	o.W1 = b64(w1)
 	var parsed obiseq.BioSequenceSlice
 	var err error
@@ -323,6 +358,9 @@ func c02run(c c02case) (o c02obs) {
 		}
 		r.Ann = c02canon(s.Annotations())
 		r.Enc = b64([]byte(obiformats.FormatFastSeqJsonHeader(s)))
+		if c.Typed {
+			r.Typed = c02views(s)
+		}
 		o.Recs = append(o.Recs, r)
 	}
 	if c.Shift2 != 0 {
@@ -330,6 +368,13 @@ func c02run(c c02case) (o c02obs) {
 	}
 	w2 := c02format(c.Fmt, parsed)
 	o.W2 = b64(w2)
+	if c.Typed && len(parsed) == len(c.Recs) && !c.SkipEmpty {
+		// the getters that store the converted value back, each on the attributes written with the matching type
+		for i, s := range parsed {
+			c02cachingGetters(s, c.Recs[i])
+			o.Recs[i].Enc3 = b64([]byte(obiformats.FormatFastSeqJsonHeader(s)))
+		}
+	}
 	if c.Fmt == "fastq" && c.Shift2 != 0 {
 		again, err := obiformats.FastqChunkParser(byte(c.Shift2), true)("c02", bytes.NewReader(w2))
 		if err != nil {
